@@ -413,5 +413,94 @@ class ProcessSnapshot(Stream):
             yield dict(case, cwd="neutral")
 
 
+class ThreadedPyproject(Stream):
+    """two pyproject-only projects (a PEP 517 back-end that reads the working directory) analysed on two threads, the second
+    started while the first is inside its back-end: afterwards the process is where it was (working directory, argv,
+    streams), and each analysis returned its own project"""
+    name = "threaded-pyproject"
+    quick_n = 8
+    thorough_n = 200
+    batch = 2
+    parallel_quick = 4
+
+    def setup(self):
+        self.tmp = tempfile.mkdtemp(prefix="rvc13t")
+
+    def teardown(self):
+        shutil.rmtree(getattr(self, "tmp", ""), ignore_errors=True)
+
+    def generate(self, rng):
+        return {"names": rng.sample(["alpha", "beta", "gamma-pkg", "delta.lib"], 2), "delay": rng.choice([0.05, 0.1, 0.2])}
+
+    SCRIPT = (
+        "import contextlib, io, json, os, sys, threading, time\n"
+        "sys.path.insert(0, sys.argv[3])\n"
+        "from rv import procsnap as PS\n"
+        "import req_compile.metadata\n"
+        "root, delay = sys.argv[1], float(sys.argv[2])\n"
+        "paths = sys.argv[4:]\n"
+        "os.chdir(os.path.join(root, 'home'))\n"
+        "before = PS.take()\n"
+        "os.environ['RV_BACKEND_RENDEZVOUS'] = os.path.join(root, 'rendezvous')\n"
+        "results = [None, None]\n"
+        "def work(i):\n"
+        "    try:\n"
+        "        results[i] = req_compile.metadata.extract_metadata(paths[i]).name\n"
+        "    except BaseException as ex:\n"
+        "        results[i] = 'raise:' + type(ex).__name__\n"
+        "with contextlib.redirect_stderr(io.StringIO()), contextlib.redirect_stdout(io.StringIO()):\n"
+        "    t1 = threading.Thread(target=work, args=(0,)); t2 = threading.Thread(target=work, args=(1,))\n"
+        "    t1.start(); time.sleep(delay); t2.start(); t1.join(30); t2.join(30)\n"
+        "os.environ.pop('RV_BACKEND_RENDEZVOUS', None)\n"
+        "after = PS.take()\n"
+        "sys.__stdout__.write(json.dumps({'results': results, 'diff': PS.diff(before, after), 'cwd_after': os.path.relpath(os.getcwd(), root)}))\n")
+
+    def impl(self, case):
+        # a process of its own for every case (what is judged is the state of that process)
+        import json as _json
+        import subprocess
+        from rv.core import digest, REPO
+        root = os.path.join(self.tmp, digest(case))
+        shutil.rmtree(root, ignore_errors=True)
+        os.makedirs(os.path.join(root, "home"))
+        os.makedirs(os.path.join(root, "rendezvous"))
+        paths = []
+        for n in case["names"]:
+            pd = os.path.join(root, n)
+            os.makedirs(pd)
+            with open(os.path.join(pd, "pyproject.toml"), "w") as f:
+                f.write('[build-system]\nrequires = []\nbuild-backend = "rv_inplace_backend"\n\n[project]\nname = "%s"\nversion = "1.0"\ndependencies = []\n' % n)
+            paths.append(pd)
+        harness_dir = os.path.dirname(os.path.dirname(os.path.dirname(os.path.abspath(__file__))))
+        env = dict(os.environ, PYTHONPATH=REPO + os.pathsep + harness_dir, PYTHONWARNINGS="ignore")
+        env.pop("RV_BACKEND_RENDEZVOUS", None)
+        try:
+            p = subprocess.run([sys.executable, "-W", "ignore", "-c", self.SCRIPT, root, str(case["delay"]), harness_dir] + paths, env=env,
+                               stdout=subprocess.PIPE, stderr=subprocess.PIPE, timeout=180, cwd=root)
+            out = _json.loads(p.stdout.decode("utf-8") or "{}")
+            if not out:
+                out = {"results": ["raise:" + p.stderr.decode("utf-8", "replace")[-300:], None], "diff": {}, "cwd_after": "?"}
+        except subprocess.TimeoutExpired:
+            out = {"results": ["timeout", None], "diff": {}, "cwd_after": "?"}
+        shutil.rmtree(root, ignore_errors=True)
+        return out
+
+    def flags(self, case, r):
+        return ["two-threads"]
+
+    def oracle(self, case, r):
+        fails = []
+        if r["results"] != case["names"]:
+            fails.append(("C13/threaded-analysis-returns-another-project", {"asked": case["names"], "returned": r["results"]}))
+        d = dict(r["diff"])
+        for k in ("cwd", "argv", "meta_path", "sys.path"):
+            if k in d:
+                fails.append(("C13/not-restored/%s/threads" % k, {k: d[k], "cwd_after": r["cwd_after"]}))
+        members = [m for m in d.get("members", []) if m not in ("warnings.showwarning", "logging._warnings_showwarning")]
+        if members:
+            fails.append(("C13/not-restored/member/threads", {"members": members}))
+        return fails[:2]
+
+
 def streams():
-    return [PatchOps(), ProcessSnapshot()]
+    return [PatchOps(), ProcessSnapshot(), ThreadedPyproject()]
